@@ -14,7 +14,17 @@ Definition in_call (s e : Z) (rows : list row) : Prop :=
 Definition cut_ok (cut : Z -> Z -> list row -> pieces) : Prop :=
   forall m s e rows, 0 <= s -> s <= e -> sorted rows -> in_call s e rows ->
   exists out, map_res (piece_chunk m) (cut s e rows) = Ok out /\ out <> [] /\ Forall wf out /\ Forall tight out /\
-              chain s out e /\ flat_map crows out = rows /\ uniform (o_dtype m) (o_run m) out.
+              chain s out e /\ flat_map crows out = rows /\ uniform (o_dtype m) (o_run m) out /\ no_trailing e out.
+
+Lemma removelast_cons {A} (x : A) l : l <> [] -> removelast (x :: l) = x :: removelast l.
+Proof. destruct l; [congruence|reflexivity]. Qed.
+
+Lemma chain_ends_le : forall cs s e, Forall wf cs -> chain s cs e -> Forall (fun c => cend c <= e) cs.
+Proof.
+  induction cs as [|c cs IH]; intros s e W Ch; [constructor|].
+  inversion W as [|? ? Wc Wcs]; subst. cbn in Ch. destruct Ch as [_ Ch].
+  constructor; [apply (chain_le _ _ _ Wcs Ch)|apply (IH (cend c) e Wcs Ch)].
+Qed.
 
 Lemma sorted_app_l a b : sorted (a ++ b) -> sorted a.
 Proof. intros H. apply sorted_app in H. tauto. Qed.
@@ -28,7 +38,7 @@ Lemma down_from_spec m k : forall rows s e acc mx prev,
   Forall (fun r => re r <= mx) acc -> Forall (fun r => rt r <= prev) acc ->
   exists out, map_res (piece_chunk m) (down_from k s e acc mx prev rows) = Ok out /\ out <> [] /\ Forall wf out /\
               Forall tight out /\ chain s out e /\ flat_map crows out = rev acc ++ rows /\
-              uniform (o_dtype m) (o_run m) out.
+              uniform (o_dtype m) (o_run m) out /\ no_trailing e out.
 Proof.
   induction rows as [|r rows IH]; intros s e acc mx prev H0 Hse Hs Hin Hmx Hpv.
   - (* the last piece: up to the end of the call *)
@@ -38,7 +48,8 @@ Proof.
     rewrite Eo. cbn [res_bind]. exists [o]. split; [reflexivity|]. split; [discriminate|].
     split; [constructor; auto|]. split.
     { constructor; [|constructor]. unfold tight. rewrite O2, O3. eapply Forall_impl; [|exact Hin]. cbn; intros; lia. }
-    split; [cbn; split; congruence|]. split; [cbn; rewrite app_nil_r; exact O3|]. constructor; [split; auto|constructor].
+    split; [cbn; split; congruence|]. split; [cbn; rewrite app_nil_r; exact O3|].
+    split; [constructor; [split; auto|constructor]|unfold no_trailing, ends_nt; cbn; constructor].
   - cbn [down_from].
     destruct ((Nat.leb k (length acc)) && negb (Nat.eqb (length acc) 0) && (mx <=? rt r) && (prev <? rt r)) eqn:EC.
     + (* cut before r *)
@@ -57,7 +68,7 @@ Proof.
       destruct (out_chunk_ok m s (rt r) (rev acc)) as (o & Eo & Wo & O1 & O2 & O3 & O4 & O5); auto.
       { apply Forall_forall. intros q Hq. rewrite Forall_forall in Hia, Hmx'. specialize (Hia q Hq). specialize (Hmx' q Hq). lia. }
       rewrite Eo. cbn [res_bind].
-      destruct (IH (rt r) e [r] (Z.max mx (re r)) (rt r)) as (out & Em & Hn & Wout & Tout & Cho & Ro & Uo); try lia.
+      destruct (IH (rt r) e [r] (Z.max mx (re r)) (rt r)) as (out & Em & Hn & Wout & Tout & Cho & Ro & Uo & NTo); try lia.
       { cbn [rev app]. exact Hsr. }
       { cbn [rev app]. unfold in_call. constructor; [lia|].
         cbn in Hsr. destruct Hsr as [Hle _]. apply Forall_forall. intros q Hq.
@@ -68,9 +79,12 @@ Proof.
       split; [constructor; auto|]. split.
       { constructor; [|exact Tout]. unfold tight. rewrite O2, O3. eapply Forall_impl; [|exact Hpv']. cbn; intros; lia. }
       split; [cbn; split; [congruence|rewrite O2; exact Cho]|].
-      split; [cbn; rewrite O3, Ro; reflexivity|]. constructor; [split; auto|exact Uo].
+      split; [cbn; rewrite O3, Ro; reflexivity|]. split; [constructor; [split; auto|exact Uo]|].
+      unfold no_trailing, ends_nt in *. cbn [map]. rewrite removelast_cons.
+      { constructor; [rewrite O2; lia|exact NTo]. }
+      { destruct out; [congruence|discriminate]. }
     + (* r joins the current piece *)
-      destruct (IH s e (r :: acc) (Z.max mx (re r)) (rt r)) as (out & Em & Hn & Wout & Tout & Cho & Ro & Uo); auto.
+      destruct (IH s e (r :: acc) (Z.max mx (re r)) (rt r)) as (out & Em & Hn & Wout & Tout & Cho & Ro & Uo & NTo); auto.
       { cbn [rev]. rewrite <- app_assoc. exact Hs. }
       { cbn [rev]. rewrite <- app_assoc. exact Hin. }
       { constructor; [lia|]. eapply Forall_impl; [|exact Hmx]. cbn; intros; lia. }
@@ -91,7 +105,7 @@ Theorem run_down_correct m h cut dt run R a b cs :
   local_comp h -> cut_ok cut -> chunking_of dt run R a b cs ->
   exists out, run_down m h cut cs = Ok out /\ chunking_of (o_dtype m) (o_run m) (h R) a b out.
 Proof.
-  intros L CO ((Hne & W & TT & Ch & HR) & U).
+  intros L CO ((Hne & W & TT & Ch & HR) & U & NT).
   destruct (iter_single_spec dt run cs a b Hne W U Ch) as (calls & Ei & F & _).
   unfold run_down. rewrite Ei. cbn [res_bind].
   assert (HM : forall cs calls s e, Forall wf cs -> Forall tight cs -> Forall2 same_data cs calls -> chain s cs e ->
@@ -99,26 +113,37 @@ Proof.
                                             (cut (cstart c) (cend c) (h (crows c)))) calls = Ok outs /\
        Forall wf (concat outs) /\ Forall tight (concat outs) /\ chain s (concat outs) e /\
        flat_map crows (concat outs) = flat_map (fun c => h (crows c)) cs /\ uniform (o_dtype m) (o_run m) (concat outs) /\
-       (cs <> [] -> concat outs <> [])).
+       (cs <> [] -> concat outs <> []) /\ (cs = [] -> outs = []) /\ (no_trailing e cs -> no_trailing e (concat outs))).
   { clear - L CO. induction cs as [|c cs IH]; intros calls s e W TT F Ch.
-    - inversion F; subst. exists []. cbn. repeat split; auto; try constructor; try congruence.
+    - inversion F; subst. exists []. cbn. repeat split; auto; try constructor; try congruence; try (intros H0; exact H0).
     - inversion F as [|? c' ? calls' (S1 & S2 & S3) F']; subst.
       inversion W as [|? ? Wc Wcs]; subst. inversion TT as [|? ? Tc Tcs]; subst. cbn in Ch. destruct Ch as [Cs Ch].
       pose proof Wc as (C0 & Cse & Csrt & CF).
-      destruct (CO m (cstart c') (cend c') (h (crows c'))) as (o & Eo & Hn & Wo & To & Co & Ro & Uo); try lia.
+      destruct (CO m (cstart c') (cend c') (h (crows c'))) as (o & Eo & Hn & Wo & To & Co & Ro & Uo & NTo); try lia.
       { rewrite S3. apply (lc_sorted h L). exact Csrt. }
       { rewrite S1, S2, S3. unfold in_call. apply Forall_forall. intros q Hq.
         pose proof (lc_within h L _ _ _ CF) as Hw. unfold within in Hw. rewrite Forall_forall in Hw. specialize (Hw q Hq).
         destruct (lc_rt h L _ _ Hq) as (r & Hr & Er). unfold tight in Tc. rewrite Forall_forall in Tc. specialize (Tc r Hr). lia. }
-      destruct (IH calls' (cend c) e Wcs Tcs F' Ch) as (outs & Em & Wout & Tout & Cho & Rout & Uout & _).
+      destruct (IH calls' (cend c) e Wcs Tcs F' Ch) as (outs & Em & Wout & Tout & Cho & Rout & Uout & Hne' & Hnil' & NT').
       cbn [map_res]. unfold piece_chunk in Eo. rewrite Eo. cbn [res_bind]. rewrite Em. cbn [res_bind].
       exists (o :: outs). split; [reflexivity|]. cbn [concat]. split; [apply Forall_app; auto|].
       split; [apply Forall_app; auto|]. split.
       { apply chain_app. exists (cend c). split; [|exact Cho]. rewrite <- Cs, <- S1, <- S2. exact Co. }
       split; [rewrite flat_map_app, Ro, Rout, S3; reflexivity|]. split; [apply Forall_app; auto|].
-      intros _ Hc. apply app_eq_nil in Hc. tauto. }
-  destruct (HM cs calls a b W TT F Ch) as (outs & Em & Wo & To & Cho & Ro & Uo & Hn).
-  rewrite Em. cbn [res_bind]. exists (concat outs). split; [reflexivity|]. split; [|exact Uo].
+      split; [intros _ Hc; apply app_eq_nil in Hc; tauto|]. split; [discriminate|].
+      intros NTc. unfold no_trailing, ends_nt in *. rewrite map_app.
+      destruct cs as [|c2 cs2].
+      { rewrite (Hnil' eq_refl). cbn [concat map]. rewrite app_nil_r. cbn in Ch. rewrite <- Ch, <- S2. exact NTo. }
+      assert (Hlt : cend c < e).
+      { cbn [map] in NTc. rewrite removelast_cons in NTc by discriminate. inversion NTc; auto. }
+      assert (Hcn : map cend (concat outs) <> []).
+      { intros Hm. apply map_eq_nil in Hm. apply Hne'; [discriminate|exact Hm]. }
+      rewrite removelast_app by exact Hcn. apply Forall_app. split.
+      * apply Forall_map. pose proof (chain_ends_le o (cstart c') (cend c') Wo Co) as Hle.
+        eapply Forall_impl; [|exact Hle]. cbn. intros x Hx. rewrite S2 in Hx. lia.
+      * apply NT'. cbn [map] in NTc. rewrite removelast_cons in NTc by discriminate. inversion NTc; auto. }
+  destruct (HM cs calls a b W TT F Ch) as (outs & Em & Wo & To & Cho & Ro & Uo & Hn & _ & HNT).
+  rewrite Em. cbn [res_bind]. exists (concat outs). split; [reflexivity|]. split; [|split; [exact Uo|exact (HNT NT)]].
   split; [apply Hn; exact Hne|]. split; [exact Wo|]. split; [exact To|]. split; [exact Cho|].
   rewrite Ro, <- (lc_flat h L), HR. reflexivity.
 Qed.
